@@ -297,7 +297,11 @@ Loop:
 	// e.g. /ab+/i becomes /(?i)ab+/.
 	if l.acceptAll(isRegexFlag) {
 		flags := l.newToken(0)
-		t.Value = fmt.Sprintf("(?%s)%s", flags.Value, t.Value)
+		// An empty pattern stays empty (the parser rejects it):
+		// with the flags in front, //i would pass for a pattern.
+		if t.Value != "" {
+			t.Value = fmt.Sprintf("(?%s)%s", flags.Value, t.Value)
+		}
 	}
 
 	return t
